@@ -28,7 +28,7 @@ CONSTANTS NI
 Ids == 1..NI
 Rec == ndJsonDeserialize(IOEnv.TRACE)
 
-VARIABLES l, pos, live, capq, stored, skip, bad, badsz
+VARIABLES l, pos, live, capq, stored, skip, bad, badsz, dq, dh, nq
 
 Abs(a) == IF a < 0 THEN -a ELSE a
 D(i, q) == Abs(pos[i] - q)
@@ -48,6 +48,7 @@ Admissible(e) ==
 HitExplained(e) == e.path # "CacheHit" \/ \E c \in stored : c[1] = e.s /\ c[2] = e.q /\ c[3] >= e.k
 
 Init == l = 1 /\ pos = [i \in Ids |-> 0] /\ live = [i \in Ids |-> FALSE] /\ capq = 0 /\ stored = {} /\ skip = FALSE /\ bad = <<>> /\ badsz = <<>>
+        /\ dq = <<>> /\ dh = <<>> /\ nq = 0
 
 Next ==
   /\ l <= Len(Rec)
@@ -73,7 +74,14 @@ Next ==
           /\ skip' = ~ok
           /\ stored' = IF e.path # "CacheHit" /\ e.cacheable THEN stored \cup {<<e.s, e.q, e.k>>} ELSE stored
           /\ UNCHANGED <<pos, live, capq>>
+     ELSE IF e.ev = "qstate" THEN UNCHANGED <<pos, live, capq, stored, skip, bad>>     \* model state vs real state: dq below
      ELSE /\ bad' = Append(bad, l) /\ skip' = TRUE /\ UNCHANGED <<pos, live, capq, stored>>
+  \* code -> spec conformance of TieredSearch.tla (MODEL-DRIFT only, never part of the verdict): the model's cache size after
+  \* every step against the real one, and the model's hit / miss prediction for every search position against the real path
+  /\ dq' = IF Rec[l].ev = "qstate" /\ Rec[l].qm # Rec[l].qr THEN Append(dq, l) ELSE dq
+  /\ dh' = IF Rec[l].ev = "search" /\ Rec[l].mh # 2 /\ ~Rec[l].degraded /\ ((Rec[l].mh = 1) # (Rec[l].path = "CacheHit")) THEN Append(dh, l) ELSE dh
+  /\ nq' = nq + (IF Rec[l].ev = "qstate" THEN 1 ELSE 0)
 
-Done == l = Len(Rec) + 1 => (PrintT(<<"TRACE-RESULT", Len(Rec), bad>>) /\ PrintT(<<"SIZE-RESULT", Len(Rec), badsz>>))
+Done == l = Len(Rec) + 1 => (PrintT(<<"TRACE-RESULT", Len(Rec), bad>>) /\ PrintT(<<"SIZE-RESULT", Len(Rec), badsz>>)
+                            /\ PrintT(ToJson([conformance |-> nq, size_diff |-> dq, hit_diff |-> dh])))
 =============================================================================
